@@ -19,6 +19,12 @@ Shape S (small-scope program x configuration enumeration), executed on the real 
                   off its database; every colliding group is rebuilt as a reduced library
                   in every declaration order, for the two back-ends that use hash names
 
+  across libraries  two library names whose 24-bit hashes collide are found by probing the
+                  tool with 4 000 names; a module is built from two such libraries, each
+                  wrapping one member of a colliding signature pair
+  batching        every atom is also run alone under six option sets, and every header that
+                  fails is split into its atoms
+
 Oracle: exit 0 => g++ accepts the -oc file against the original header; every wrapper
 name recorded in the database is defined exactly once in the object (nm); wrapper names
 and unique names are pairwise distinct valid identifiers; interrogate_module output
@@ -43,6 +49,7 @@ IDENT = re.compile(r"^[A-Za-z_][A-Za-z0-9_]*$")
 def norm_sig(text):
     s = L.first_error(text)
     s = re.sub(r"_in[CP][A-Za-z0-9_]{8,}", "_inX", s)
+    s = re.sub(r"'[^']*\b_inX\([^']*\)'", "'_inX(...)'", s)      # a wrapper's declaration, whatever its types
     s = re.sub(r"\b(Dtool_\w+?)_\d+\b", r"\1_N", s)
     return s
 
